@@ -21,7 +21,11 @@ def main(args):
     if args.replay:
         import json
         d = json.load(open(args.replay))
-        print(json.dumps(bounds_replay.replay(d["obligation"], d.get("model")), indent=1, default=str))
+        if d["obligation"].startswith("comparison["):
+            from contracts import bounds2
+            print(json.dumps(bounds2.replay_comparison(d["obligation"], d.get("model")), indent=1, default=str))
+        else:
+            print(json.dumps(bounds_replay.replay(d["obligation"], d.get("model")), indent=1, default=str))
         return 0
     for f in FUNCS:
         run.function("compiler.front_end.expression_bounds." + f, "pyvc: body executed symbolically against sidecar contract")
@@ -33,12 +37,20 @@ def main(args):
         for n in bounds.THOROUGH_TARGETS:
             bounds.TARGETS[n] = bounds.THOROUGH_TARGETS[n]
     pool.run_targets(run, "contracts.bounds", names)
-    from contracts import gate
+    from contracts import gate, bounds2
     pool.run_targets(run, "contracts.gate", [t for t in gate.TARGETS if t != "_cpp_integer_type_for_enum"])
+    n_first = len(run.obligations)
+    pool.run_targets(run, "contracts.bounds2", list(bounds2.TARGETS))
+    for f in bounds2.FUNCTIONS:
+        run.function("compiler.front_end.expression_bounds." + f, "pyvc: body executed symbolically against sidecar contract (contracts/bounds2.py)")
     # replay every refuted obligation on the real code of the same tree
-    for ob in run.obligations:
+    for i, ob in enumerate(run.obligations):
         if ob.verdict == core.REFUTED:
-            ob.replay = bounds_replay.replay(ob.name, ob.model)
+            if i >= n_first:
+                if ob.name.startswith("comparison["):
+                    ob.replay = bounds2.replay_comparison(ob.name, ob.model)
+            else:
+                ob.replay = bounds_replay.replay(ob.name, ob.model)
     # engine self-validation: random concrete runs of the real functions against the concrete contract
     n = 400 if args.tier == "quick" else 4000
     runs, fails, samples = bounds_replay.cross_check(run.seed, n)
